@@ -260,7 +260,7 @@ func checkC15(env *Env) []Violation {
 			env.Probes.inc("F6_abandoned_message")
 			if len(buf) > 0 {
 				abandonedPrefix = true
-				stale = len(buf)
+				stale += len(buf) // on top of what earlier abandoned messages left behind
 			}
 			// the model starts the next message with an empty buffer: "after any
 			// failed or abandoned message the next message is transmitted complete,
@@ -331,6 +331,7 @@ func checkC15(env *Env) []Violation {
 			buf = nil
 			refusedInMsg = false
 			abandonedPrefix = false
+			stale = 0
 			if anyFault {
 				env.Probes.inc("faults_in_sequence")
 			}
